@@ -49,7 +49,7 @@ def _leaves(eg):
             yield x
 
 
-def scn(sym, cov, props, children, body="fall", env=(), eager=False, T=1, J=2, ext="R", exc="plain", tg_shield=False, outer_shield=False):
+def scn(sym, cov, props, children, body="fall", env=(), eager=False, T=1, J=2, ext="R", exc="plain", tg_shield=False, outer_shield=False, rewrap=2):
     import anyio
     from anyio import TASK_STATUS_IGNORED, CancelScope, TaskHandle
 
@@ -246,6 +246,22 @@ def scn(sym, cov, props, children, body="fall", env=(), eager=False, T=1, J=2, e
                         if body == "cancel":
                             tg.cancel_scope.cancel()
                             await anyio.sleep(0)
+                        if body == "cancel-rewrap":
+                            # the group cancels itself while the body awaits through `rewrap` layers of third-party style wrappers,
+                            # each of which catches the cancellation and raises a fresh CancelledError: still the group's own
+                            # shutdown, not an error and not a foreign cancellation
+                            tg.cancel_scope.cancel()
+
+                            async def layer(k):
+                                if k == 0:
+                                    await anyio.sleep(0)
+                                    return
+                                try:
+                                    await layer(k - 1)
+                                except asyncio.CancelledError:
+                                    raise asyncio.CancelledError()  # (implicit __context__: the exception being handled)
+
+                            await layer(rewrap)
                         if body == "shield-toggle":
                             # the host sits in a shielded block while an enclosing scope may get cancelled (its children are
                             # hit); then it shields the whole group and leaves the block: it is now directly inside a shielded
